@@ -42,7 +42,7 @@ ASSUMPTIONS = [
     "payloads are compared with == only (same_payload); the harness uses payload values for which == is an equivalence",
 ]
 
-TRANSFORMS = ["copy", "rename", "dedup", "split", "expand"]
+TRANSFORMS = ["copy", "rename", "dedup", "split", "expand", "fuse"]
 
 
 # ----------------------------------------------------------------------------- real side + oracle
@@ -400,7 +400,100 @@ def real_expand(case):
                                  "expand:expansions": len(table)}}, fails
 
 
-REAL = {"copy": real_copy, "rename": real_rename, "dedup": real_dedup, "split": real_split, "expand": real_expand}
+def _accept_fn(case):
+    mode = case.get("mode", "all")
+    names = set(case.get("accept", []))
+
+    def accept(parent, pout, cur, cin):
+        if mode == "all":
+            return True
+        if mode == "table":
+            return parent.name in names
+        if mode == "linear":
+            return (parent.is_processor() and cur.is_processor() and pout == "0" and len(parent.outputs) == 1
+                    and len(cur.inputs) == 1)
+        return False
+    return accept
+
+
+def inline_fuse(accept):
+    """The harness' fusion callback ("inline the parent"), mirrored by `inlineFuse` in Model/Graph.lean."""
+    from earthkit.workflows.graph import Node
+
+    def f(parent, pout, cur, cin):
+        if not accept(parent, pout, cur, cin):
+            return None
+        if cin not in cur.inputs:
+            return None
+        kept = {k: v for k, v in cur.inputs.items() if k != cin}
+        taken = {cin + "." + k: v for k, v in parent.inputs.items()}
+        if any(k in kept for k in taken):
+            return None
+        payload = ("fuse", cur.payload, cin, parent.payload, pout, tuple(parent.inputs), tuple(parent.outputs))
+        return Node(cur.name + "+" + parent.name, list(cur.outputs), payload, **kept, **taken)
+    return f
+
+
+def _pterm(p, env, outs):
+    """Term of a payload applied to an input environment {input name: (output name, term)}: a fused payload is
+    un-fused (the child applied to its inputs, the parent's result inlined at `cin`)."""
+    if isinstance(p, tuple) and len(p) == 7 and p[0] == "fuse":
+        _, cp, cin, pp, pout, pins, pouts = p
+        pkeys = {cin + "." + k for k in pins}
+        pt = _pterm(pp, {k: env[cin + "." + k] for k in pins}, tuple(pouts))
+        cenv = {k: v for k, v in env.items() if k not in pkeys}
+        cenv[cin] = (pout, pt)
+        return _pterm(cp, cenv, outs)
+    return L.INTERN(("T", L.hp(L.payload_id(p)), outs, tuple(sorted((k, o, t) for k, (o, t) in env.items()))))
+
+
+def _fterm(n, memo, keep):
+    t = memo.get(id(n))
+    if t is None:
+        env = {k: (src.name, _fterm(src.parent, memo, keep)) for k, src in n.inputs.items()}
+        t = memo[id(n)] = _pterm(n.payload, env, tuple(n.outputs))
+        keep.append(n)
+    return t
+
+
+def real_fuse(case):
+    from earthkit.workflows.graph import fuse_nodes
+    ag = case["g"]
+    g, objs = L.build(ag)
+    before = L.Sym().sinks(g)
+    cons = collections.Counter(j for n in ag["nodes"] for _, j, _ in n["inputs"])
+    origin = {id(o): i for i, o in enumerate(objs)}
+    inner = inline_fuse(_accept_fn(case))
+    calls = []
+    keep = []
+
+    def cb(parent, pout, cur, cin):
+        calls.append((origin.get(id(parent)), pout, origin.get(id(cur)), cin))
+        r = inner(parent, pout, cur, cin)
+        if r is not None:
+            origin[id(r)] = origin.get(id(cur))
+            keep.append(r)
+        return r
+
+    try:
+        r = fuse_nodes(cb, g)
+        res = L.extract(r.sinks)
+    except Exception as e:
+        return {"err": _exc(e)}, [_fail("raises", f"fuse_nodes raised {_exc(e)}: {e}")]
+    fails = []
+    memo = {}
+    after = [_fterm(s_, memo, keep) for s_ in r.sinks]
+    if after != before:
+        fails.append(_fail("sink-terms-changed", "a sink of the fused graph (fused payloads un-fused) denotes a different term than the corresponding sink of the input"))
+    for pi, pout, ci, cin in calls:
+        if pi is None or cons[pi] != 1:
+            fails.append(_fail("fuse-shared-parent", f"the fusion callback was offered a parent that has {cons.get(pi)} consuming edges (exactly one expected)"))
+            break
+    nf = sum(1 for n in res["nodes"] if isinstance(n["payload"], list))
+    return {"ok": res, "stats": {"fuse:callback_calls": len(calls), "fuse:fused_nodes_in_result": nf}}, fails
+
+
+REAL = {"fuse": real_fuse, "copy": real_copy, "rename": real_rename, "dedup": real_dedup, "split": real_split, "expand": real_expand}
 
 
 def run_case(case):
@@ -459,6 +552,8 @@ def neighbors(case):
                 c["table"] = [[new if a == old else a, b] for a, b in c["table"]]
             if "exp" in c:
                 c["exp"] = [[new if a == old else a, e] for a, e in c["exp"]]
+            if "accept" in c:
+                c["accept"] = [new if a == old else a for a in c["accept"]]
         if change and change[0] == "rename-output" and "exp" in c:
             _, nm, old, new = change
             exp2 = []
@@ -495,6 +590,12 @@ def neighbors(case):
                         outs = [o for n in case["g"]["nodes"] if n["name"] == nm for o in n["outputs"]]
                         e2["omap"] = [[o, new if o == old else o] for o in outs]
                 yield dict(case, exp=ex[:i] + [[nm, e2]] + ex[i + 1:])
+    if case["t"] == "fuse":
+        ac = case.get("accept", [])
+        for i in range(len(ac)):
+            yield dict(case, accept=ac[:i] + ac[i + 1:])
+        if case.get("mode") != "all":
+            yield dict(case, mode="all")
     if case["t"] == "split":
         ks = case.get("keys", [])
         for i in range(len(ks)):
@@ -533,6 +634,12 @@ def gen_case(rng, t, nmax, adversarial=True):
             if rng.random() < 0.3:
                 tab.append([nm, rng.choice(["x", "main", nm + ".", rng.choice(names), "zz" + nm])])
         case["table"] = tab
+    if t == "fuse":
+        if rng.random() < 0.6:
+            case["g"] = ag = L.gen_chainy(rng, nmax, adversarial=adversarial)
+            names = [n["name"] for n in ag["nodes"]]
+        case["mode"] = rng.choice(["all", "all", "table", "linear"])
+        case["accept"] = [nm for nm in sorted(set(names)) if rng.random() < 0.6]
     if t == "expand":
         exp = []
         for n in ag["nodes"]:
